@@ -44,8 +44,9 @@ CFG = dict(
                  "endpoints reach the resolver); NAT-outgoing constant",
                  "the route managers know their parent device; host metadata / VTEPs exist exactly for the nodes that have an IPv4 "
                  "address in the final state (what VXLANResolver / the host-metadata path deliver)",
-                 "iteration over Go maps/sets in the resolver and the managers performs per-element effects on distinct CIDRs, so "
-                 "the accumulated route set does not depend on it (the model uses list order)",
+                 "iteration over Go maps/sets: flush()'s order over the dirty set is proved irrelevant (c43_flush_order_independent); "
+                 "the other loops (cached routes of a block, nodeRoutes of a node, trie Visit) only mark CIDRs dirty or update "
+                 "distinct CIDRs, the model runs them in list order (not proved; exercised by Go's randomised map order in every case)",
                  "the oracle's demands apply to states the datastore admits (valid_state: disjoint pools, disjoint blocks, blocks "
                  "inside or apart from pools, node addresses outside blocks, real subnets)"],
 )
@@ -60,9 +61,11 @@ MANIFEST = dict(
     text="Theorems over an executable model of L3RouteResolver (trie of RouteInfo, dirty set, flush) and of the route managers' "
          "target selection: for every state the datastore admits, every remote block / borrowed address gets a direct route via "
          "its owner exactly when the pool is unencapsulated or cross-subnet with the owner in the local subnet, otherwise the "
-         "pool's tunnel route; blackholes are exactly the local non-/32 blocks and never a local workload's own address; the "
-         "incremental resolver's output versus the function of the final state (order independence: refuted for the pinned code "
-         "with a replayed witness, see known-findings).  Correspondence run of model and spec oracle against the real resolver "
-         "and the real managers on generated histories.",
+         "pool's tunnel route; local non-/32 blocks are blackholed and a blackhole is never a local workload's own address; the "
+         "managers' pending maps are a function of the route set for every message stream; flush() is independent of the dirty "
+         "set's iteration order; order independence of the incremental resolver: refuted for the pinned code with replayed "
+         "witnesses (known finding, fix patch), proved for the repaired variant along every history of node and pool updates "
+         "(partial: block/workload update steps and trie-as-function-of-state are not proved).  Correspondence run of model "
+         "and spec oracle against the real resolver and the real vxlan/ipip/noencap managers on generated histories.",
     note="Trusted: Coq kernel; hand-written model tied to the code only by the correspondence run; Go driver + shim.",
 )
